@@ -102,12 +102,12 @@ def _(c):
 
 
 OPS = ["copy", "copy_form", "copy_frame", "copy_same", "set_element", "set_meta", "set_maneuvers", "set_cov", "form_setter", "frame_setter", "bad_form", "bad_frame",
-       "pickle", "as_orbit", "as_statevector", "mutate_cov", "mutate_maneuver_list", "form_call"]
+       "pickle", "as_orbit", "as_statevector", "mutate_cov", "mutate_maneuver_list", "form_call", "deepcopy"]
 
 
 def _grid_seq(tier, rng):
     """states {plain, with covariance, with maneuvers, with both, Orbit with both} x seeded operation sequences of length 6 (quick 150, thorough 3000) over copy / copy(form) /
-    copy(frame) / copy(same) / element, metadata, maneuver, covariance assignment / form and frame setters / failing form and frame changes / pickle round trip / as_orbit /
+    copy(frame) / copy(same) / element, metadata, maneuver, covariance assignment / form and frame setters / failing form and frame changes / pickle round trip / copy.deepcopy / as_orbit /
     as_statevector / in-place mutation of an attached covariance or maneuver list"""
     n = 150 if tier == "quick" else 3000
     for k in range(n):
@@ -234,6 +234,11 @@ def _(c):
                     ok_fail = False
                 except Exception:
                     ok_fail = ok_fail and _same_state(_snap(tgt), before[k]) and _consistent(tgt)
+            elif op == "deepcopy":
+                # the standard library's way of asking for an independent copy
+                import copy as _copy
+                new = _copy.deepcopy(tgt)
+                ok_value = ok_value and _snap(new) == before[k] and _behaves_like(new, tgt)
             elif op == "pickle":
                 new = pickle.loads(pickle.dumps(tgt))
                 sn = _snap(new)
